@@ -10,7 +10,7 @@ EXPLANATION = ("In gix-worktree-state's library code: every OpenOptions::open re
                "create_leading_directory re-checks symlink_metadata before reusing an existing entry and only removes a colliding entry when asked to. "
                "Directory entry: every Delegate::push_directory site of gix_fs::Stack that is not reached through the Ok edge of a Delegate::push (other than the root) "
                "obliges StackDelegate::push_directory to run create_leading_directory(false, ..) in checkout mode, bypassable only by the flag push() sets to "
-               "!is_last_component or by the empty (root) path. Content and mode equality with `git checkout` are not decided.")
+               "!is_last_component or by the empty (root) path. finalize_entry may chmod by path only a path handed out by the path stack, or its request flag is the constant false. Content and mode equality with `git checkout` are not decided.")
 FORBIDDEN = r"(^std::fs::File::(create|create_new|options)$|^std::fs::(write|copy|rename|hard_link|create_dir|create_dir_all|soft_link)$|^std::fs::OpenOptions::new$|unix::fs::symlink$)"
 ALLOW = {  # callee -> allowed caller regex
     r"^std::fs::OpenOptions::open$": r"checkout::entry::(checkout|open_file)",
